@@ -317,6 +317,11 @@ static inline void errno_after(long r, int e)
 	if (r >= 0 && stale_errno && !in_child) {
 		if (stale_rng == 0)
 			stale_rng = (case_seed * 0x9E3779B97F4A7C15ULL) | 1;
+		if (stale_errno == 2) {
+			/* sticky: one old failure code for the whole case, as errno really behaves between two failing calls */
+			static const int sticky[] = { EINTR, EAGAIN, EPERM, ENOSYS, EINTR, EBADF };
+			errno = sticky[(case_seed >> 7) % (sizeof(sticky) / sizeof(sticky[0]))];
+		} else
 		errno = stale[(xs(&stale_rng) >> 20) % (sizeof(stale) / sizeof(stale[0]))];
 		vt_stats.stale_errno++;
 	} else {
@@ -1353,6 +1358,38 @@ int __wrap_close(int fd)
 	return __real_close(fd);
 }
 
+/*
+ * A thread that reads end-of-file from the same descriptor 200000 times in a row, without any other result in between, is
+ * caught in a loop that no event will ever leave (each call returns at once): reported like a dead-lock, with the call site.
+ */
+static void eof_spin(int fd, long r, size_t n, void *ra, const char *what)
+{
+	static __thread int last_fd = -1;
+	static __thread long count;
+
+	if (in_child)
+		return;
+	if (r == 0 && n > 0 && fd == last_fd) {
+		if (++count == 200000) {
+			char desc[400];
+			Dl_info di;
+			const char *mod = "?";
+			unsigned long off = 1;
+			memset(&di, 0, sizeof(di));
+			if (dladdr(ra, &di) && di.dli_fbase != NULL) {
+				mod = di.dli_fname ? di.dli_fname : "?";
+				off = (unsigned long)((char *)ra - (char *)di.dli_fbase);
+			}
+			snprintf(desc, sizeof(desc), "ra=%s+0x%lx :: %s() on descriptor %d returned 0 (end of file) 200000 times in a row in the same thread with nothing else in between: the caller loops for ever",
+				 mod, off - 1, what, fd);
+			hk_deadlock("eof-spin", desc);
+		}
+	} else {
+		last_fd = (r == 0 && n > 0) ? fd : -1;
+		count = 0;
+	}
+}
+
 long __wrap_read(int fd, void *buf, size_t n)
 {
 	long r;
@@ -1362,6 +1399,7 @@ long __wrap_read(int fd, void *buf, size_t n)
 		hk_read_pre(fd);
 	r = __real_read(fd, buf, n);
 	e = errno;
+	eof_spin(fd, r, n, __builtin_return_address(0), "read");
 	if (fd >= 0 && fd < MAXFD && vtfd[fd].used && r > 0)
 		vtfd[fd].fired = 0;
 	if (!in_child)
@@ -1395,6 +1433,7 @@ long __wrap_splice(int fdin, off_t *offin, int fdout, off_t *offout, size_t len,
 	if (inj) { errno = inj; return -1; }
 	r = __real_splice(fdin, offin, fdout, offout, len, flags);
 	e = errno;
+	eof_spin(fdin, r, len, __builtin_return_address(0), "splice");
 	hk_splice(fdin, fdout, len, r, e);
 	errno_after(r, e);
 	return r;
@@ -1492,7 +1531,7 @@ void vt_init(void)
 		_exit(2);
 	}
 	if ((s = getenv("VT_STALE_ERRNO")) != NULL && atoi(s) > 0)
-		stale_errno = 1;
+		stale_errno = atoi(s) >= 2 ? 2 : 1;
 	if (getenv("VT_DEBUG"))
 		atexit(dbg_dump);
 	if ((s = getenv("VT_PERTURB")) != NULL) {
